@@ -2,6 +2,11 @@
 """writes MANIFEST.json from the table below (keeps it valid and in one place)"""
 import json, os
 CHECKS = {
+ 'C08': dict(technique='who-may-write census plus path-sensitive gate/in-hand typestate on the in-flight counter (R-CNT-CON)',
+             text='Decides the accounting discipline of con_active on every path of every writer: writer kinds, decrement only with a send-queue node in hand, '
+                  'increment only below the NSTART comparison, transmitters count. These are necessary for the in-flight bound; the bound itself under all '
+                  'ACK/RST orders and the FIFO order of held messages are not decided.',
+             design='6 C08'),
  'C15': dict(technique='who-may-write rule on the anti-replay fields (R-REPLAY-OWN), snapshot/restore and rollback-before-exit typestate (R-REPLAY-RB), must-pass-through validation (R-REPLAY-MUST), interval check of shift counts (R-RANGE)',
              text='Decides the state discipline behind replay protection: only the window functions write the replay fields, everything the validation modifies '
                   'is saved and restored on every path of the roll-back, unauthenticated exits roll back, every accepted request passed a successful validation, '
